@@ -1,7 +1,7 @@
 """Shared logic of ./check (see its docstring)."""
 import sys, os, json, subprocess, time, hashlib, re, glob, fcntl, shutil
 
-REPO = "/repo"
+REPO = os.environ.get("VERIF_REPO", "/repo")
 ALLOWED_AXIOMS = {
     # standard-library axioms that may appear (named in DESIGN.md section 5); none is used so far
     "functional_extensionality_dep", "proof_irrelevance", "JMeq_eq", "eq_rect_eq", "classic",
@@ -212,6 +212,10 @@ def harness_prepare(root):
     if os.path.exists(extra):
         sums.update(l for l in open(extra).read().splitlines() if l.strip())
     write_if_changed(os.path.join(hs, "go.sum"), "\n".join(sorted(sums)) + "\n")
+    gm = os.path.join(hs, "go.mod")
+    mod = open(gm).read()
+    mod2 = re.sub(r"replace ariga\.io/atlas => \S+", "replace ariga.io/atlas => " + REPO, mod)
+    write_if_changed(gm, mod2)
 
 
 def harness_build(root, engine):
@@ -294,6 +298,7 @@ def run_stage(root, cfg, stage, tier, seed, work):
     env["VERIF_TIER"] = tier
     env["ATLAS_BIN"] = os.path.join(root, "build", "atlas")
     env["VERIF_ROOT"] = root
+    env["VERIF_REPO"] = REPO
     hbin = os.path.join(root, "build", "h_" + stage["harness"])
     cmd = [hbin] + stage.get("harness_args", []) + ["-tier", tier, "-out", work]
     tmo = stage.get("timeout_quick", 900) if tier == "quick" else stage.get("timeout_thorough", 7200)
